@@ -32,6 +32,25 @@ pub fn admission<S: Sch<P = UP>>(cfg: &Cfg, bound_supported: bool) -> Verdict {
     if !ok && fits && bound_supported {
         return Verdict::viol("commit-refused-good-bound", format!("commit refused degree {} under enforced bound {}: {:?}", degree, d, res.map(|r| r.map(|_| ()).map_err(|e| errname(&e)))));
     }
+    // prover side: the same labelled polynomial handed to `open`, with a commitment and state made for it under
+    // a label the committer accepts (the largest enforced bound that fits, else no bound): `open` must refuse
+    // exactly what `commit` refuses
+    if degree > cfg.sz.supported {
+        return Verdict::Hold;
+    }
+    let enforced: Vec<usize> = cfg.enforced.clone().unwrap_or_default();
+    let alt: Option<usize> = enforced.iter().copied().filter(|b| *b >= degree && *b <= cfg.sz.supported).max();
+    let lps_ok: Vec<ark_poly_commit::LabeledPolynomial<SF, UP>> = lps.iter().map(|p| ark_poly_commit::LabeledPolynomial::new(p.label().clone(), p.polynomial().clone(), alt, p.hiding_bound())).collect();
+    let (comms, states) = match catch(|| PCOf::<S>::commit(&ck, &lps_ok, Some(&mut rng))) {
+        Ok(Ok(x)) => x,
+        _ => return Verdict::Hold,
+    };
+    let z = crate::engine::explore::sym("z");
+    let mut sp = sponge(cfg, 1);
+    let opened = catch(|| PCOf::<S>::open(&ck, &lps, &comms, &z, &mut sp, &states, Some(&mut rng)));
+    if matches!(opened, Ok(Ok(_))) && !(fits && bound_supported) {
+        return Verdict::viol("open-accepted-bad-bound", format!("open returned a proof for degree {} declared with bound {} (bound supported: {}); commitment made under {:?}", degree, d, bound_supported, alt));
+    }
     Verdict::Hold
 }
 
